@@ -235,7 +235,10 @@ class NetSession:
             res = self.step(op)
             new_air = self.world.air[self.air_seen:]
             self.air_seen = len(self.world.air)
-            outs.append(res + " ~ " + " || ".join(show_radio(r) for r in self.world.radios)
+            allv = ",".join(
+                f"{n._rf24_rid}/{n._addr}/{n._net_lvl}/{b01(n.allow_multicast)}/{n.address_prefix[0]}/{hx(n.address_suffix)}"
+                if n is not None else "?" for n in self.nodes)
+            outs.append(res + " all=" + allv + " ~ " + " || ".join(show_radio(r) for r in self.world.radios)
                         + " ~ [" + ",".join(show_air(a) for a in new_air) + "]")
         return " ; ".join(outs)
 
